@@ -221,13 +221,23 @@ def run(chk):
     cases = [([Fraction(1, 10), Fraction(1, 10), Fraction(1)], True), ([Fraction(1)], True), ([], True), ([Fraction(1, 10), Fraction(1)], False),
              ([Fraction(1, 2), Fraction(1, 10), Fraction(1)], False)]
     for grid_, refused in cases:
+        made = None
         try:
-            pe.instantiate(xg_cls.qname, [list(grid_)], {"log": False})
+            made = pe.instantiate(xg_cls.qname, [list(grid_)], {"log": False})
             got = False
         except PERaise as e:
             got = "ValueError" in str(e)
         chk.decide(got == refused, "invalid-grids-and-degrees-are-refused", fxi.qname, f"grid {[str(v) for v in grid_]}: refused={got}, required {refused}",
                    where=fxi.where, instance=str(len(grid_)) + ("dup" if len(set(grid_)) != len(grid_) else ""), how="PE")
+        if made is not None and not refused:
+            # an accepted grid is stored in ascending order (the blocks, the half-open evaluation and is_below_x all rely on it):
+            # points given in another order are a valid grid, not a different one
+            stored = made.attrs.get("grid")
+            vals = [dag.as_const(dag.tonode(v)) for v in stored.flat()] if isinstance(stored, Arr) else None
+            chk.decide(vals is not None and vals == sorted(grid_), "accepted-grid-is-ascending", fxi.qname,
+                       f"points given as {[str(v) for v in grid_]} are stored as {[str(v) for v in vals] if vals else stored}; required ascending "
+                       f"order: with areas whose lower edge lies above the upper one the basis is no partition of unity", where=fxi.where,
+                       instance="order:" + ",".join(str(v) for v in grid_), how="PE")
     for n, deg in itertools.product(range(2, 8), range(-1, 8)):
         pe = mk_pe(src)
         pe.overrides[bf_cls.qname] = lambda p, a, k: Obj(bf_cls)
